@@ -33,7 +33,7 @@ ASSUMPTIONS = [
     "patience <= max_iter (larger values make the slice exceed the history and are outside the domain)",
     "fresh minibatches are observed black-box through the influence of single observations on the fitted position",
 ]
-SHARDS = {"quick": 8, "thorough": 16}
+SHARDS = {"quick": 16, "thorough": 16}
 EXHAUSTIVE = True
 TECHNIQUE = ("exhaustive enumeration of loss histories over a dyadic alphabet against the documented stopping pseudo-code; Hypothesis "
              "end-to-end optimisation runs with invariant oracles; observation-influence metamorphic test for minibatching")
@@ -118,10 +118,12 @@ def oracle_stopper_case(case):
 
 def run_stopper_exhaustive(ctx):
     plans = [(ALPHA7, 5)] if ctx.tier == "quick" else [(ALPHA7, 6), (ALPHA, 7)]
-    configs = [(al, L, p, a, r, mi) for al, L in plans for p in range(1, L + 1) for a in TOLS for r in TOLS for mi in (L, L + 3)]
+    # mi = L: history buffer as long as the limit; mi = L + 3: buffer zero-padded to the limit (as optim_flat does) or, "short", just the
+    # L losses recorded so far (direct use of the public Stopper methods)
+    configs = [(al, L, p, a, r, mi, pad) for al, L in plans for p in range(1, L + 1) for a in TOLS for r in TOLS for mi, pad in ((L, True), (L + 3, True), (L + 3, False))]
     n_eval = 0
     hists = {}
-    for ci, (al, L, p, atol, rtol, mi) in enumerate(configs):
+    for ci, (al, L, p, atol, rtol, mi, pad) in enumerate(configs):
         if ci % ctx.nshards != ctx.shard or mi < p:
             continue
         if (len(al), L) not in hists:
@@ -129,7 +131,7 @@ def run_stopper_exhaustive(ctx):
         hist = hists[(len(al), L)]
         I = np.repeat(np.arange(L), len(hist))
         H = np.tile(hist, (L, 1))
-        if mi > L:  # history array has length max_iter in real use; pad with zeros like optim_flat does
+        if mi > L and pad:  # history array has length max_iter in real use; pad with zeros like optim_flat does
             H = np.concatenate([H, np.zeros((len(H), mi - L), dtype=F32)], axis=1)
         fails, nt = judge_stopper(p, atol, rtol, mi, I, H)
         st = ctx._st("stopper_exhaustive")
@@ -224,7 +226,8 @@ def run_optim(c, x, y, xv=None, yv=None):
     stopper = Stopper(max_iter=c["max_iter"], patience=c["patience"], atol=c["atol"], rtol=c["rtol"])
     with silence():
         res = optim_flat(model, list(c.get("params", ["coef"])), optimizer=opt, stopper=stopper, batch_size=c["batch"], batch_seed=c["batch_seed"],
-                         model_validation=mval, restore_best_position=c["restore"], prune_history=c["prune"], progress_bar=False)
+                         model_validation=mval, restore_best_position=c["restore"] and c.get("save_pos", True), prune_history=c["prune"], progress_bar=False,
+                         save_position_history=c.get("save_pos", True))
     return res, model
 
 
@@ -236,13 +239,49 @@ def gen_e2e():
         n = draw(st.integers(4, 12))
         mi = draw(st.integers(3, 40))
         return {"n": n, "data_seed": draw(st.integers(0, 10**6)), "opt": draw(st.sampled_from(["sgd", "adam"])),
-                "lr": draw(st.sampled_from([0.002, 0.01, 0.03, 0.08, 0.15])), "max_iter": mi, "patience": draw(st.integers(1, mi)),
-                "atol": draw(st.sampled_from([0.0, 1e-3, 0.05, 1.0])), "rtol": draw(st.sampled_from([0.0, 1e-3, 0.05])),
+                "lr": draw(st.sampled_from([0.002, 0.01, 0.03, 0.08, 0.15])), "max_iter": mi, "patience": draw(st.one_of(st.integers(1, mi), st.integers(1, min(mi, 5)))),
+                "atol": draw(st.sampled_from([0.0, 1e-3, 0.05, 1.0, 1.0])), "rtol": draw(st.sampled_from([0.0, 1e-3, 0.05, 0.05])),
                 "batch": draw(st.one_of(st.none(), st.integers(2, n))), "batch_seed": draw(st.integers(1, 1000)),
                 "validation": draw(st.booleans()), "restore": draw(st.booleans()), "prune": draw(st.booleans()),
-                "params": draw(st.sampled_from([["coef"], ["coef", "bias"], ["coef", "bias"], ["bias", "coef"]]))}
+                "params": draw(st.sampled_from([["coef"], ["coef", "bias"], ["coef", "bias"], ["bias", "coef"]])), "save_pos": draw(st.integers(0, 3)) != 0}
 
     return g()
+
+
+def oracle_e2e_nopos(c, res, x, y, xv, yv, det):
+    """save_position_history=False: no position history; loss histories keep their documented lengths / padding, the returned position is the
+    last one (its losses are the last recorded losses) and the stopping rule is the documented one"""
+    it, ib, mi, p = int(res.iteration), int(res.iteration_best), c["max_iter"], c["patience"]
+    h = res.history
+    lv, lt = np.asarray(h["loss_validation"]), np.asarray(h["loss_train"])
+    require(h.get("position") is None, "history:position-recorded-although-switched-off", det)
+    if c["prune"]:
+        require(lv.shape == (it + 1,) and lt.shape == (it + 1,), "history:pruned-length", f"loss_validation {lv.shape} loss_train {lt.shape}, documented length iteration + 1 = {it + 1}; {det}")
+    else:
+        ok = lv.shape == (mi,) and lt.shape == (mi,) and not np.any(np.isnan(lv[: it + 1])) and bool(np.all(np.isnan(lv[it + 1:]))) and bool(np.all(np.isnan(lt[it + 1:])))
+        require(ok, "history:nan-padding", f"{lv.tolist()}; {det}")
+    lvv, ltt = lv[: it + 1], lt[: it + 1]
+    has_bias = "bias" in c.get("params", ["coef"])
+    pos = np.asarray(res.position["coef"])
+    bias = float(np.asarray(res.position["bias"])) if has_bias else 0.5
+    if not (np.all(np.isfinite(lvv)) and np.all(np.isfinite(pos)) and np.all(np.abs(pos) < 1e15)):
+        return {"nt": False, "cls": ["diverged"]}
+    nval = len(yv) if c["validation"] else c["n"]
+    e_tr = neg_log_post(pos, x, y, bias=bias)
+    e_va = neg_log_post(pos, xv, yv, c["n"] / nval, bias=bias) if c["validation"] else e_tr
+    require(abs(ltt[it] - e_tr) <= 2e-4 * (abs(e_tr) + 10), "history:loss_train-not-loss-of-returned-position", f"recorded {ltt[it]} independent {e_tr}; {det}")
+    require(abs(lvv[it] - e_va) <= 2e-4 * (abs(e_va) + 10), "history:loss_validation-not-loss-of-returned-position", f"recorded {lvv[it]} independent {e_va}; {det}")
+    lo = it - p + 1
+    require(lo >= 0 and ib == lo + int(np.argmin(lvv[lo: it + 1])), "iteration_best:not-argmin-of-final-window", f"window={lvv[max(lo, 0): it + 1].tolist()}; {det}")
+    p_eff = p if c["validation"] else mi
+    stopped_early = it < mi - 1
+    if stopped_early:
+        w = lvv[it - p_eff + 1: it + 1][None, :] if it - p_eff + 1 >= 0 else None
+        require(w is not None and bool(rule_np(w.astype(F32), c["atol"], c["rtol"])[0]), "stopped-early-against-rule", det)
+    for j in range(p_eff + 1, it):
+        require(not bool(rule_np(lvv[j - p_eff + 1: j + 1][None, :].astype(F32), c["atol"], c["rtol"])[0]), "missed-stop", f"rule held at j={j}; {det}")
+    return {"nt": bool(stopped_early), "cls": ["early" if stopped_early else "maxiter", "val" if c["validation"] else "noval", "no-position-history",
+                                               "prune" if c["prune"] else "pad"]}
 
 
 def oracle_e2e(c):
@@ -254,6 +293,8 @@ def oracle_e2e(c):
     it, ib, mi, p = int(res.iteration), int(res.iteration_best), c["max_iter"], c["patience"]
     det = f"case={c} iteration={it} best={ib}"
     h = res.history
+    if not c.get("save_pos", True):
+        return oracle_e2e_nopos(c, res, x, y, xv, yv, det)
     lv, lt, hp = np.asarray(h["loss_validation"]), np.asarray(h["loss_train"]), np.asarray(h["position"]["coef"])
     has_bias = "bias" in c.get("params", ["coef"])
     require(sorted(h["position"].keys()) == sorted(c.get("params", ["coef"])) and sorted(res.position.keys()) == sorted(c.get("params", ["coef"])), "position-keys", det)
@@ -350,7 +391,7 @@ def oracle_fresh(c):
 SUBS = [
     Sub("stopper_exhaustive", oracle_stopper_case, run=run_stopper_exhaustive, what="all histories over a dyadic alphabet x i x patience x tolerances"),
     Sub("stopper_floats", oracle_stopper_floats, gen=gen_stopper_floats, n={"quick": 300, "thorough": 20000}, what="Hypothesis float histories"),
-    Sub("end_to_end", oracle_e2e, gen=gen_e2e, n={"quick": 16, "thorough": 300}, shrink_calls=12, what="optim_flat invariants"),
+    Sub("end_to_end", oracle_e2e, gen=gen_e2e, n={"quick": 64, "thorough": 600}, shrink_calls=12, min_per_shard=3, what="optim_flat invariants"),
     Sub("fresh_minibatches", oracle_fresh, gen=gen_fresh, n={"quick": 4, "thorough": 40}, shrink={"quick": False, "thorough": False}, min_per_shard=1,
         what="every observation influences the fit when batch size does not divide n"),
 ]
